@@ -28,10 +28,16 @@ FORBIDDEN = re.compile(
     r'|Unset\s+Guard|Unset\s+Positivity|Unset\s+Universe|type-in-type|impredicative-set'
 )
 
-TRANSLATORS = {
-    'T1': 'translate.t1_header',
-    'T4': 'translate.t4_health',
-}
+def _discover_translators():
+    found = {}
+    for path in sorted(glob.glob(os.path.join(VERIF, 'translate', 't[0-9]*_*.py'))):
+        base = os.path.basename(path)[:-3]
+        tid = 'T' + base[1:].split('_', 1)[0]
+        found[tid] = 'translate.' + base
+    return found
+
+
+TRANSLATORS = _discover_translators()
 
 
 def sh(cmd, timeout, cwd=None, env=None):
